@@ -76,18 +76,18 @@ def loopMany (d : PDec α) : Nat → PDec (List α)
     let xs ← loopMany d n
     pure (x :: xs)
 
-/-- an element read into a vector that has to grow: growth by doubling is counted as twice the element size per
-    element read -/
-def growing (size : Nat) (d : PDec α) : PDec α := do
+/-- an element pushed onto a vector: `g` bytes are requested for the growth of the vector -/
+def growing (g : Nat) (d : PDec α) : PDec α := do
   let x ← d
-  alloc (2 * size)
+  alloc g
   pure x
 
 /-- `read_many::<D>(n)` with `size_of::<D>() = size`: a bounded pre-allocation, then one element after the other;
-    when more elements than pre-allocated are requested the vector grows while it is filled -/
+    when more elements than pre-allocated are requested the vector grows by doubling while it is filled, counted
+    as twice the element size per element read -/
 def readManyA (size : Nat) (d : PDec α) (n : Nat) : PDec (List α) := do
   alloc (preallocCount size n * size)
-  loopMany (if n ≤ MAX_PREALLOC / max size 1 then d else growing size d) n
+  loopMany (growing (if n ≤ MAX_PREALLOC / max size 1 then 0 else 2 * size) d) n
 
 -- ------------------------------------------------------------------------------------------------
 -- Proof::from_bytes
@@ -266,14 +266,18 @@ def mapErr (m : AM α) : AM α := fun a =>
   | r => r
 
 /-- a digest of the hasher: fixed number of bytes (none of the digest readers rejects a value) -/
-def pDigest (A : Air) : PDec Unit := do
-  let _ ← lift (readSlice A.digestBytes)
+def dDigest (A : Air) : Dec Unit := do
+  let _ ← readSlice A.digestBytes
   pure ()
 
+def pDigest (A : Air) : PDec Unit := lift (dDigest A)
+
 /-- an element of the extension of degree `deg`: `deg` canonical base field elements -/
-def pElem (A : Air) (deg : Nat) : PDec Unit := do
-  let _ ← lift (readMany (elem A.F).dec deg)
+def dElem (A : Air) (deg : Nat) : Dec Unit := do
+  let _ ← readMany (elem A.F).dec deg
   pure ()
+
+def pElem (A : Air) (deg : Nat) : PDec Unit := lift (dElem A deg)
 
 def elemSize (A : Air) (deg : Nat) : Nat := A.F.bytes * deg
 
@@ -389,6 +393,38 @@ def oodParse (A : Air) (f : OodFrame) (mainW auxW ncols deg : Nat) : AM (Option 
     pEnd)
   pure lag
 
+/-- `TraceQueries::new(trace_queries, air, num_unique_queries)`: `assert_eq!(queries.len(), num_segments)`,
+    then `queries.remove(0)` for the main segment and, for a multi-segment trace, for the auxiliary segment -/
+def traceQueriesNew (A : Air) (p : Proof) (lde deg : Nat) : AM Unit :=
+  let ti := p.context.traceInfo
+  if p.traceQueries.length ≠ ti.numSegments then apanic else
+  match p.traceQueries with
+  | [] => apanic
+  | q0 :: rest => do
+    mapErr (queriesParse A q0 lde p.numUniqueQueries ti.main 1)
+    if ti.aux > 0 then
+      match rest with
+      | [] => apanic
+      | q1 :: _ => mapErr (queriesParse A q1 lde p.numUniqueQueries ti.aux deg)
+    else pure ()
+
+/-- the FRI part of `VerifierChannel::new` (repair 73d3514: the number of layers is compared first) -/
+def friNew (A : Air) (fri : FriProof) (lde layers folding deg : Nat) : AM Unit := do
+  if fri.layers.length ≠ layers then aerr else
+  -- `FriProof::num_partitions`: `2usize.pow(byte)`
+  if fri.numPartitions ≥ 64 then apanic else do
+  friParseRemainder A fri deg
+  mapErr (friParseLayers A fri lde folding deg)
+
+/-- the out-of-domain part of `VerifierChannel::new` with the shape checks of the repairs bef468b (Lagrange
+    kernel frame) and 76bb3d0 (a GKR proof the AIR has no use for) -/
+def oodNew (A : Air) (p : Proof) (ncols deg : Nat) : AM Unit := do
+  let ti := p.context.traceInfo
+  let lag ← mapErr (oodParse A p.oodFrame ti.main ti.aux ncols deg)
+  let expected := if A.lagrange then some (ti.length.log2 + 1) else none
+  if lag ≠ expected then aerr else
+  if p.gkrProof.isSome ∧ A.lagrange = false then aerr else pure ()
+
 /-- `VerifierChannel::new(air, proof)` after the base-field check; `ncols` is
     `air.context().num_constraint_composition_columns()` -/
 def channelNew (A : Air) (p : Proof) (ncols : Nat) : AM Unit := do
@@ -400,30 +436,10 @@ def channelNew (A : Air) (p : Proof) (ncols : Nat) : AM Unit := do
   mapErr (commitmentsParse A p.commitments ti.numSegments layers)
   -- repair 18a2667
   if p.numUniqueQueries = 0 then aerr else do
-  -- `TraceQueries::new`: `assert_eq!(queries.len(), num_segments)`, `queries.remove(0)` per segment
-  if p.traceQueries.length ≠ ti.numSegments then apanic else do
-  match p.traceQueries with
-  | [] => apanic
-  | q0 :: rest =>
-    mapErr (queriesParse A q0 lde p.numUniqueQueries ti.main 1)
-    if ti.aux > 0 then
-      match rest with
-      | [] => apanic
-      | q1 :: _ => mapErr (queriesParse A q1 lde p.numUniqueQueries ti.aux deg)
-    else pure ()
+  traceQueriesNew A p lde deg
   mapErr (queriesParse A p.constraintQueries lde p.numUniqueQueries ncols deg)
-  -- repair 73d3514
-  if p.friProof.layers.length ≠ layers then aerr else do
-  -- `FriProof::num_partitions`: `2usize.pow(byte)`
-  if p.friProof.numPartitions ≥ 64 then apanic else do
-  friParseRemainder A p.friProof deg
-  mapErr (friParseLayers A p.friProof lde o.folding deg)
-  let lag ← mapErr (oodParse A p.oodFrame ti.main ti.aux ncols deg)
-  -- repair bef468b
-  let expected := if A.lagrange then some (ti.length.log2 + 1) else none
-  if lag ≠ expected then aerr else
-  -- repair 76bb3d0: a GKR proof the AIR has no use for
-  if p.gkrProof.isSome ∧ A.lagrange = false then aerr else pure ()
+  friNew A p.friProof lde layers o.folding deg
+  oodNew A p ncols deg
 
 /-- `get_conjectured_security` in `u32` / `usize` arithmetic of a debug build; `none` = an arithmetic panic
     (overflowing product, `ilog2(0)`, underflowing subtraction) -/
